@@ -171,7 +171,10 @@ type step struct {
 
 var protectedOps = []string{"GET /accessories", "GET /characteristics", "PUT value", "PUT ev", "POST /pairings add", "POST /pairings remove", "POST /pairings add-accessory-name", "POST /resource",
 	// the same endpoints through methods their handlers do not expect: the refusal must come before any dispatch
-	"other-method POST /accessories", "other-method PUT /accessories", "other-method POST /characteristics", "other-method GET /pairings", "other-method PUT /pairings", "other-method GET /resource"}
+	"other-method POST /accessories", "other-method PUT /accessories", "other-method POST /characteristics", "other-method GET /pairings", "other-method PUT /pairings", "other-method GET /resource",
+	// and through methods no HAP endpoint uses at all (each protected path with a body that would be honoured)
+	"other-method DELETE /pairings", "other-method PATCH /pairings", "other-method OPTIONS /pairings", "other-method FOO /pairings", "other-method DELETE /pairings-remove", "other-method PATCH /pairings-remove",
+	"other-method DELETE /characteristics", "other-method PATCH /characteristics", "other-method OPTIONS /accessories", "other-method PATCH /accessories", "other-method DELETE /resource", "other-method FOO /characteristics"}
 var handshakeOps = []string{"setup M1", "setup M3 wrong-proof", "setup M3 A=0", "setup M5 zero-key", "verify M1", "verify M1 short-key", "verify M3 unknown-name", "verify M3 accessory-name",
 	"verify M3 L-bad-signature", "verify M3 zero-key", "verify M3 short", "identify", "L read", "L write", "L subscribe", "switch-connection", "encrypted GET /accessories", "encrypted PUT value", "encrypted-zero GET /accessories", "encrypted-zero PUT value"}
 
@@ -213,6 +216,13 @@ func (w *world) request(op string, rnd *rand.Rand, at *attacker) (method, target
 		ct := refctl.ContentJSON
 		if f[2] == "/pairings" {
 			body, ct = refctl.PairingsAdd(at.me.ID, at.me.LTPK, true), refctl.ContentTLV8
+		}
+		if f[2] == "/pairings-remove" {
+			f[2] = "/pairings"
+			body, ct = refctl.PairingsRemove(w.L.ID), refctl.ContentTLV8
+		}
+		if f[2] == "/resource" {
+			body = []byte(`{"resource-type":"image","image-width":4,"image-height":4}`)
 		}
 		if f[1] == "GET" || f[1] == "HEAD" {
 			body = nil
